@@ -352,6 +352,20 @@ func randChunk(r *hx.Rng, sh shape) *level.Chunk {
 			// a single non-air value everywhere is not reachable by SetBlock without growing the
 			// palette; leave all air
 		}
+		if k > 3 && len(airIDs) == 3 && r.Intn(3) == 0 {
+			for j := 0; j < 6; j++ {
+				s.SetBlock(r.Intn(4096), level.BlocksState(airIDs[1+j%2])) // cave_air, void_air
+			}
+		}
+		if outG != nil {
+			bl := make([]int, 4096)
+			for j := range bl {
+				bl[j] = int(s.GetBlock(j))
+			}
+			if own := refNonAir(bl); int(s.BlockCount) != own {
+				outG.Fail("C13.setblock.count", "a section built by SetBlock has block count %d, it holds %d non-air blocks", s.BlockCount, own)
+			}
+		}
 		kb := sh.biomeK[i]
 		for j := 1; j < kb; j++ {
 			s.Biomes.Set(r.Intn(64), level.BiomesState((j*5+r.Intn(nBiomes))%nBiomes))
@@ -694,6 +708,82 @@ func layoutPred(o *hx.Out, src *level.Chunk, img []byte, desc string) {
 	}
 }
 
+// reusedCase: the same destination receives doc1 (k1 states) and then doc2 (k2 states).  What it then IS must not
+// depend on doc1: (i) written again it gives the bytes a fresh chunk that read doc2 gives, (ii) through the save
+// form and back it holds doc2's blocks, biomes and counters.
+func reusedCase(o *hx.Out, r *hx.Rng, secs, k1, k2, b1, b2 int) {
+	mk := func(k, kb int) *level.Chunk {
+		sh := shape{secs: secs, entities: r.Intn(2)}
+		for i := 0; i < secs; i++ {
+			sh.stateK, sh.biomeK = append(sh.stateK, k), append(sh.biomeK, kb)
+		}
+		c := randChunk(r, sh)
+		for i := range c.Sections { // light is not transmitted: keep it out of the comparison
+			c.Sections[i].SkyLight, c.Sections[i].BlockLight = nil, nil
+		}
+		return c
+	}
+	c1, c2 := mk(k1, b1), mk(k2, b2)
+	var d1, d2 bytes.Buffer
+	if _, err := c1.WriteTo(&d1); err != nil {
+		return
+	}
+	if _, err := c2.WriteTo(&d2); err != nil {
+		return
+	}
+	desc := fmt.Sprintf("%d sections, doc1 with %d states / %d biomes then doc2 with %d / %d into the same chunk", secs, k1, b1, k2, b2)
+	o.Eval("wire.reused", true, desc+fmt.Sprint(r.Next()))
+	reused, fresh := level.EmptyChunk(secs), level.EmptyChunk(secs)
+	for _, step := range []struct {
+		c   *level.Chunk
+		doc []byte
+	}{{reused, d1.Bytes()}, {reused, d2.Bytes()}, {fresh, d2.Bytes()}} {
+		var err error
+		if p := hx.Try(func() { _, err = step.c.ReadFrom(bytes.NewReader(step.doc)) }); p != "" || err != nil {
+			o.Fail("C13.wire.reused-rewrite", "%s: ReadFrom panic=%q err=%v", desc, p, err)
+			return
+		}
+	}
+	var w1, w2 bytes.Buffer
+	if _, err := reused.WriteTo(&w1); err != nil {
+		o.Fail("C13.wire.reused-rewrite", "%s: WriteTo of the reused chunk: %v", desc, err)
+		return
+	}
+	if _, err := fresh.WriteTo(&w2); err != nil {
+		return
+	}
+	if !bytes.Equal(w1.Bytes(), w2.Bytes()) {
+		o.Fail("C13.wire.reused-rewrite", "%s: written again the reused chunk gives %d bytes, a fresh chunk that read the same document gives %d (the document has %d)", desc, w1.Len(), w2.Len(), d2.Len())
+	}
+	want := takeSnap(c2)
+	sv := &save.Chunk{}
+	var lc *level.Chunk
+	var err error
+	if p := hx.Try(func() {
+		if err = level.ChunkToSave(reused, sv); err == nil {
+			lc, err = level.ChunkFromSave(sv)
+		}
+	}); p != "" || err != nil {
+		o.Fail("C13.save.reused", "%s: the save round trip of the reused chunk: panic=%q err=%v", desc, p, err)
+		return
+	}
+	got := takeSnap(lc)
+	for i := range want.blocks {
+		if j := eqInts(want.blocks[i], got.blocks[i]); j >= 0 {
+			o.Fail("C13.save.reused", "%s: section %d block %d is %d after the save round trip, the document says %d", desc, i, j, got.blocks[i][j], want.blocks[i][j])
+			return
+		}
+		if j := eqInts(want.biomes[i], got.biomes[i]); j >= 0 {
+			o.Fail("C13.save.reused", "%s: section %d biome %d is %d after the save round trip, the document says %d", desc, i, j, got.biomes[i][j], want.biomes[i][j])
+			return
+		}
+		if got.counts[i] != refNonAir(want.blocks[i]) {
+			o.Fail("C13.save.reused", "%s: section %d block count %d after the save round trip, %d non-air blocks", desc, i, got.counts[i], refNonAir(want.blocks[i]))
+			return
+		}
+	}
+}
+
 // refReadCase: a body produced by the reference WRITER read by Chunk.ReadFrom
 func refReadCase(o *hx.Out, r *hx.Rng) {
 	nsec := 1 + r.Intn(6)
@@ -872,6 +962,10 @@ func saveCase(o *hx.Out, cat string, c *level.Chunk, r *hx.Rng, desc string) {
 		}
 		if want.counts[i] != got.counts[i] {
 			o.Fail("C13.save.count", "%s: section %d block count %d came back as %d", desc, i, want.counts[i], got.counts[i])
+			break
+		}
+		if own := refNonAir(got.blocks[i]); got.counts[i] != own {
+			o.Fail("C13.save.count", "%s: section %d has block count %d after ChunkFromSave, it holds %d non-air blocks", desc, i, got.counts[i], own)
 			break
 		}
 	}
@@ -1121,6 +1215,17 @@ func synthSave(o *hx.Out, r *hx.Rng, secs int) {
 		for j := range ids {
 			ids[j] = (base + j*11) % nStates
 		}
+		if k >= 4 && r.Intn(3) != 0 { // the three kinds of air among the palette entries
+			used := map[int]bool{}
+			for _, id := range ids {
+				used[id] = true
+			}
+			for j, a := range airIDs {
+				if !used[a] {
+					ids[j] = a
+				}
+			}
+		}
 		bids := make([]int, kb)
 		for j := range bids {
 			bids[j] = (j*3 + i) % nBiomes
@@ -1182,14 +1287,8 @@ func synthSave(o *hx.Out, r *hx.Rng, secs int) {
 			o.Fail("C13.save.from-biomes", "%s: section %d (%d palette entries) biome %d is %d, the save data says %d", desc, i, nb, j, got.biomes[i][j], want[i].biomes[j])
 			break
 		}
-		air := 0
-		for _, b := range want[i].blocks {
-			if !block.IsAir(block.StateID(b)) {
-				air++
-			}
-		}
-		if got.counts[i] != air {
-			o.Fail("C13.count.from-save", "%s: section %d block count %d, non-air blocks %d", desc, i, got.counts[i], air)
+		if air := refNonAir(want[i].blocks); got.counts[i] != air {
+			o.Fail("C13.save.count", "%s: section %d block count %d, non-air blocks %d", desc, i, got.counts[i], air)
 		}
 	}
 	for k, name := range hmNames {
@@ -1213,35 +1312,59 @@ func countCase(o *hx.Out, r *hx.Rng, nops int, cat string) {
 		case 0:
 			pool[i] = 0
 		case 1:
-			pool[i] = airIDs[r.Intn(len(airIDs))]
+			pool[i] = airIDs[(i+r.Intn(2))%len(airIDs)] // air, cave_air, void_air: placed, overwritten, kept
 		default:
 			pool[i] = r.Intn(nStates)
 		}
 	}
 	var ops sb
 	npos := r.Pick(4, 64, 4096)
+	shadow := make([]int, 4096) // the harness's own copy of the section and its own count
+	own, reported := 0, false
 	for i := 0; i < nops; i++ {
 		p, v := r.Intn(npos)*(4096/npos), pool[r.Intn(len(pool))]
 		s.SetBlock(p, level.BlocksState(v))
 		ops.int(p)
 		ops.int(v)
+		if !isAirRef[shadow[p]] {
+			own--
+		}
+		if !isAirRef[v] {
+			own++
+		}
+		shadow[p] = v
+		if int(s.BlockCount) != own && !reported {
+			reported = true
+			o.Fail("C13.setblock.count", "after SetBlock number %d (position %d, state %d %s) the block count is %d, the section holds %d non-air blocks", i+1, p, v, regPal[v].Name, s.BlockCount, own)
+		}
 	}
-	nonAir := 0
 	ids := make([]int, 4096)
 	for i := range ids {
 		ids[i] = int(s.GetBlock(i))
-		if !block.IsAir(block.StateID(ids[i])) {
-			nonAir++
-		}
 	}
+	nonAir := refNonAir(ids)
 	o.Case(cat, nops > 1, fmt.Sprintf("setb 0,4096 0 %d %s", nops, strings.TrimRight(ops.String(), " ")),
 		fmt.Sprintf("setb %d %d %s", s.BlockCount, nonAir, md5hex(zlistTok(ids))))
 	if int(s.BlockCount) != nonAir {
-		o.Fail("C13.count", "after %d SetBlock calls the block count is %d, the section holds %d non-air blocks", nops, s.BlockCount, nonAir)
+		o.Fail("C13.setblock.count", "after %d SetBlock calls the block count is %d, the section holds %d non-air blocks", nops, s.BlockCount, nonAir)
 	}
 }
 
 var airIDs []int
+
+var airNames = map[string]bool{"minecraft:air": true, "minecraft:cave_air": true, "minecraft:void_air": true}
+var isAirRef = map[int]bool{}
+
+// refNonAir: the number of non-air entries of a section by the harness's own air set
+func refNonAir(blocks []int) int {
+	n := 0
+	for _, b := range blocks {
+		if !isAirRef[b] {
+			n++
+		}
+	}
+	return n
+}
 
 // propsOf parses the Properties RawMessage the palette carries: a compound of strings, in order.
 func propsOf(m nbt.RawMessage) ([][2]string, error) {
@@ -1358,6 +1481,26 @@ func genRegistry(o *hx.Out, pal []save.BlockState, back []level.BlocksState, bio
 		fmt.Fprintf(&sb, "(%d,%d)%s\n", b.idx<<20+off, int(back[i]), sep)
 	}
 	sb.WriteString("].\n\n")
+	// the air states, by NAME (each of the three blocks has exactly one state)
+	var airs []string
+	for _, name := range []string{"minecraft:air", "minecraft:cave_air", "minecraft:void_air"} {
+		found := -1
+		for i, p := range pal {
+			if p.Name == name {
+				if found >= 0 {
+					o.Fail("C13.registry.gen", "%s has more than one state", name)
+					return
+				}
+				found = i
+			}
+		}
+		if found < 0 {
+			o.Fail("C13.registry.gen", "no state named %s", name)
+			return
+		}
+		airs = append(airs, strconv.Itoa(found))
+	}
+	fmt.Fprintf(&sb, "(* the state ids of minecraft:air, minecraft:cave_air, minecraft:void_air, looked up by name *)\nDefinition reg_air : list N := [%s].\n\n", strings.Join(airs, "; "))
 	fmt.Fprintf(&sb, "Definition bio_count : N := %d.\n", len(bioKeys))
 	sb.WriteString("(* row i: (the name of biome i as a number: 1 then its bytes, base 256; the id the name is read back as) *)\n")
 	sb.WriteString("Definition bio_rows : list (N * N) := [\n")
@@ -1425,8 +1568,11 @@ func registry(o *hx.Out) bool {
 		}
 		seen[key] = i
 		o.Case("registry", false, fmt.Sprintf("reg %d %s %d %s", i, hx.Hex([]byte(p.Name)), p.Properties.Type, hx.Hex(p.Properties.Data)), "reg ok")
-		if block.IsAir(block.StateID(i)) {
+		// the harness's OWN notion of air: the states named minecraft:air / cave_air / void_air in the table
+		// (never block.IsAir, which is code under test)
+		if airNames[p.Name] {
 			airIDs = append(airIDs, i)
+			isAirRef[i] = true
 			o.Case("registry", false, fmt.Sprintf("air %d", i), "air ok")
 		}
 		if p.Name != block.StateList[i].ID() {
@@ -1466,7 +1612,16 @@ func registry(o *hx.Out) bool {
 		}
 		o.Case("registry", false, fmt.Sprintf("bio %d %s", i, hx.Hex(name)), "bio ok")
 	}
-	o.Note("registry: %d block states, %d biomes, %d air states swept", nStates, nBiomes, len(airIDs))
+	if len(airIDs) != 3 {
+		o.Fail("C13.registry.air", "%d states are named air / cave_air / void_air (3 expected)", len(airIDs))
+	}
+	for i := 0; i < nStates; i++ {
+		if block.IsAir(block.StateID(i)) != isAirRef[i] {
+			o.Fail("C13.setblock.count", "block.IsAir(%d) is %v, the state is named %s", i, block.IsAir(block.StateID(i)), pal[i].Name)
+			break
+		}
+	}
+	o.Note("registry: %d block states, %d biomes, air states by name %v", nStates, nBiomes, airIDs)
 	return true
 }
 
@@ -1557,6 +1712,12 @@ func main() {
 			dst.HeightMaps.WorldSurfaceWG = nil
 		}
 		wireCase(o, "wire.mismatch", src, dst, nil, false, "")
+	}
+	// a REUSED destination: doc1 then doc2 into the same chunk, over the palette-class transitions
+	trans := []int{1, 2, 16, 17, 40, 300}
+	for i := 0; i < o.N(36, 3); i++ {
+		k1, k2 := trans[i%len(trans)], trans[(i/len(trans))%len(trans)]
+		reusedCase(o, r, 1+r.Intn(2), k1, k2, biomeClasses[r.Intn(len(biomeClasses))], biomeClasses[(i*5)%len(biomeClasses)])
 	}
 	// bodies written by the independent reference writer
 	for i := 0; i < o.N(40, 6); i++ {
